@@ -151,6 +151,10 @@ func logical(name string) string {
 	case "dist_key.private":
 		return "share"
 	}
+	// labelling convention only: "<known file>.tmp" is that file's temporary sibling
+	if base := strings.TrimSuffix(name, ".tmp"); base != name && logical(base) != base {
+		return logical(base) + ".tmp"
+	}
 	return name
 }
 
@@ -204,6 +208,11 @@ func tornOffsets(content []byte, mode string) []int {
 
 // cutsFromEvents replays the observed file-system events of one call on the image `before` and returns every
 // intermediate image; `after` supplies the content a file has once its last write session is closed.
+// The write protocol is not assumed: a file written in place shows up as create/truncate + modify on the target
+// itself (torn prefixes of the TARGET are crash images), a file replaced atomically shows up as create + modify on a
+// sibling followed by a rename onto the target (torn prefixes of the SIBLING are crash images, the target keeps its
+// old content until the rename). A sibling that is renamed onto X later in the call is labelled "<X>.tmp" whatever
+// its real name is.
 func cutsFromEvents(before, after files, evs []fsEvent, tornMode string) ([]cut, []string) {
 	type action struct{ kind, a, b string }
 	var acts []action
@@ -249,10 +258,20 @@ func cutsFromEvents(before, after files, evs []fsEvent, tornMode string) ([]cut,
 		return after[cur]
 	}
 	lastModify := map[string]int{}
+	tmpOf := map[string]string{} // sibling name -> label, for files that are renamed onto a known file in this call
 	for i, a := range acts {
 		if a.kind == "modify" {
 			lastModify[a.a] = i
 		}
+		if a.kind == "rename" && a.a != "" && logical(a.b) != a.b {
+			tmpOf[a.a] = logical(a.b) + ".tmp"
+		}
+	}
+	logical := func(name string) string {
+		if l, ok := tmpOf[name]; ok {
+			return l
+		}
+		return logical(name)
 	}
 	var trace []string
 	var out []cut
@@ -986,6 +1005,25 @@ func crashEngine(args []string, in *bufio.Scanner, out *bufio.Writer) {
 			case "staged":
 				// staged <status>: a DKG step that only touches the staged bucket (proposal, acceptance, failure, leaving)
 				return n.stagedOp(f[1])
+			case "stray":
+				// stray <group|share>: what an earlier run that died inside a Save may have left behind — a stale sibling
+				// "<file>.tmp", longer than any real encoding, undecodable, with a loose mode. Nothing may ever load it,
+				// and a later Save must not be confused by it.
+				if n == nil || n.dkgStore == nil || n.bp == nil {
+					return "no-node"
+				}
+				name := map[string]string{"group": "drand_group.toml", "share": "dist_key.private"}[f[1]]
+				if name == "" {
+					return "bad-op"
+				}
+				junk := bytes.Repeat([]byte("Stale = \"left by an interrupted save\"\n[[[\n"), 400)
+				if cur := readOpt(filepath.Join(n.groupsDir(), name)); len(cur) > 0 {
+					junk = append(append([]byte{}, cur[:len(cur)/2]...), junk...)
+				}
+				if err := os.WriteFile(filepath.Join(n.groupsDir(), name+".tmp"), junk, 0o644); err != nil {
+					return "err:" + err.Error()
+				}
+				return "ok"
 			case "load":
 				c := cut{label: "rest", groups: readDir(n.groupsDir()), dkgDb: readOpt(n.dkgFile()), chain: readOpt(n.chainFile())}
 				return "rest;" + n.recoverImage(c, true)
